@@ -86,6 +86,10 @@ unsafe impl<T> TrustedLen for DeBox<'_, T> {
     fn len(&self) -> usize {
         TrustedLen::len(&*self.0)
     }
+    #[inline]
+    fn is_empty(&self) -> bool {
+        TrustedLen::is_empty(&*self.0)
+    }
 }
 
 pub type FwBox<'a, T> = Box<dyn TrustedLen<Item = T> + 'a>;
